@@ -255,6 +255,8 @@ def _operand_char(arg):
         return arg[1]
     if arg[0] == 't':
         return TOKENS[arg[1]]
+    if arg[0] == 'pc':
+        return arg[1]
     raise ValueError(arg)
 
 
@@ -267,6 +269,11 @@ def _check_ctor_arg(arg):
         return arg[1]
     if k == 't':
         return TOKENS[arg[1]]
+    if k == 'pc':
+        # Pregex(ch) for one character ch: the signature says `str | Pregex`, the prose says "token instance". The code
+        # accepts it and reads it as ch; the caller of model() additionally accepts the documented rejection
+        # (has_plain_pregex_arg) - but never a *different* character set.
+        return arg[1]
     if k == 's':
         raise Raises(['InvalidArgumentTypeException'], 'string not of length one')
     if k == 'bad':
@@ -371,6 +378,15 @@ def model(e, leaf_set=None):
     raise ValueError(e)
 
 
+def has_plain_pregex_arg(e):
+    """Does a constructor in `e` receive Pregex(ch), a one-character non-token Pregex?"""
+    if not isinstance(e, list):
+        return False
+    if e and e[0] == 'pc':
+        return True
+    return any(has_plain_pregex_arg(x) for x in e)
+
+
 # ---------------------------------------------------------------------------------------------
 # build the real object
 # ---------------------------------------------------------------------------------------------
@@ -383,7 +399,7 @@ def build(e):
         return e[1]
     if k == 't':
         return getattr(tk, e[1])()
-    if k == 'p':
+    if k in ('p', 'pc'):
         return Pregex(e[1])
     if k == 'bad':
         return {'none': None, 'int': 5, 'list': ['a'], 'bytes': b'a', 'float': 1.5}[e[1]]
@@ -417,7 +433,7 @@ def render(e):
         return repr(e[1])
     if k == 't':
         return f'{e[1]}()'
-    if k == 'p':
+    if k in ('p', 'pc'):
         return f'Pregex({e[1]!r})'
     if k == 'bad':
         return {'none': 'None', 'int': '5', 'list': "['a']", 'bytes': "b'a'", 'float': '1.5'}[e[1]]
